@@ -116,6 +116,15 @@ def plan_jobs(prop, tier, rnd):
         for j in range(k):
             s = names[(i + j) % len(names)] if rnd.random() < 0.7 else rnd.choice(names)
             assets[f"B{j + 1}"] = rnd.choice(pools[s])
+        if prop == "C05":
+            # acquisitions both more and less than a year before some disposal: long and short fractions in one report
+            def both_terms(h):
+                ins = [x["t"] for x in h if x["cls"] == "in"]
+                outs = [x["t"] for x in h if x["cls"] != "in"]
+                return any(o - a >= 366 * 86400 for a in ins for o in outs) and any(0 <= o - a < 365 * 86400 for a in ins for o in outs)
+            mixed = [h for h in pools.get("Y", []) if both_terms(h)]
+            if mixed:
+                assets["B1"] = rnd.choice(mixed)
         if prop == "C14" and "T" in pools:
             # every transaction type in every table that takes it, in turn (covering all 14 types does not depend on the seed)
             out_ty = ["sell", "gift", "donate", "fee", "lost", "staking"][i % 6]
